@@ -265,6 +265,7 @@ def angle_sites() -> tuple[list[tuple[str, str, int]], dict]:
 
 # ---------------------------------------------------------------------------------------------- constructor dispatch
 ARG_FORMS = ('FNumber', 'FSameClass', 'FOtherAngle', 'FVec', 'FFrozenVec', 'FIterable')
+_LAST_CTOR_ROWS: list[tuple[str, str, str]] = []       # set by translate() before result_kinds() runs
 _ALL_OBJECT_FORMS = {'FSameClass', 'FOtherAngle', 'FVec', 'FFrozenVec', 'FIterable'}
 
 
@@ -1887,6 +1888,12 @@ def result_kinds(tree: ast.Module) -> tuple[list[tuple[str, str, str]], dict]:
         # class: the object it returns is the receiver itself or one created during the run
         if cls.startswith('Frozen') and table.get('__new__') in ('RUnknown', 'RArg'):
             k = sym.ctor_kind(cls)
+            if k is None and cls == 'FrozenAngle':
+                # the dispatch table of the constructor by argument form (angle_ctor_rows): the argument itself for an
+                # object of the class, a new object for every other form
+                acts = {fm: a for c, fm, a in _LAST_CTOR_ROWS if c == 'FrozenAngle.__new__'}
+                if len(acts) == len(ARG_FORMS) and all(a.startswith('(AStores') for fm, a in acts.items() if fm != 'FSameClass'):
+                    k = 'RArgFrozen' if acts['FSameClass'] == 'AReturnArg' else 'RFresh' if acts['FSameClass'].startswith('(AStores') else None
             if k is not None:
                 table['__new__'] = k
                 info.setdefault('kinds_from_symbolic_run', []).append(f'{cls}.__new__')
@@ -2400,6 +2407,7 @@ def translate() -> tuple[str, dict]:
     info.update(cinfo)
     ctor_rows, crinfo = angle_ctor_rows(tree)
     info.update(crinfo)
+    _LAST_CTOR_ROWS[:] = ctor_rows
     cfg = format_cfg(tree)
     pcfg = parse_cfg(tree)
     strs = str_templates(tree)
